@@ -67,7 +67,8 @@ pub fn shards(tier: &str) -> Vec<String> {
         }
     }
     for s in ["m1", "m2"] {
-        v.push(format!("mtbdd:{s}:b{}", if tier == "thorough" { 3 } else { 2 }));
+        // m2 has about 17 000 schedules with 2 preemptions and more than 400 000 with 3
+        v.push(format!("mtbdd:{s}:b{}", if tier == "thorough" && s == "m1" { 3 } else { 2 }));
     }
     v
 }
